@@ -1,6 +1,7 @@
 package main
 
 import (
+	"strings"
 	"context"
 	"errors"
 	"fmt"
@@ -15,7 +16,40 @@ import (
 	ecdsakeygen "github.com/bnb-chain/tss-lib/v2/ecdsa/keygen"
 )
 
-func init() { props["C19"] = runC19 }
+func init() {
+	props["C19"] = runC19
+	script := func(bound *big.Int, cands []*big.Int) *coinReader {
+		cr := &coinReader{}
+		for _, c := range cands {
+			cr.push(c, bound.BitLen())
+		}
+		return cr
+	}
+	sample := func(f func(cr *coinReader, n *big.Int) *big.Int) func(a []string) string {
+		return func(a []string) string {
+			n := dInt(a[0])
+			cr := script(n, dInts(a[1]))
+			var v *big.Int
+			res := guard(func() string {
+				v = f(cr, n)
+				return ""
+			})
+			if strings.Contains(res, "script exhausted") {
+				return "exhausted"
+			}
+			if res != "" {
+				return res
+			}
+			if v == nil {
+				return "exhausted"
+			}
+			return "ok " + eInt(v)
+		}
+	}
+	goOps["sample_positive"] = sample(func(cr *coinReader, n *big.Int) *big.Int { return common.GetRandomPositiveInt(cr, n) })
+	goOps["sample_relprime"] = sample(func(cr *coinReader, n *big.Int) *big.Int { return common.GetRandomPositiveRelativelyPrimeInt(cr, n) })
+	goOps["sample_qnr"] = sample(func(cr *coinReader, n *big.Int) *big.Int { return common.GetRandomQuadraticNonResidue(cr, n) })
+}
 
 type failingReader struct {
 	r    io.Reader
@@ -183,6 +217,25 @@ func runC19(r *Run, rng *rand.Rand, thorough bool) {
 		for _, bits := range []int{1, 2, 8, 255, 256} {
 			v := common.MustGetRandomInt(rand.New(rand.NewSource(rng.Int63())), bits)
 			r.Assert(v.Sign() >= 0 && v.BitLen() <= bits, "common.MustGetRandomInt/range", "sampler-below-2^bits", nil)
+		}
+	}
+	// exact sampler ops against the model: the candidate values are scripted through the io.Reader
+	for _, b := range bounds {
+		if b.BitLen() > 300 {
+			continue
+		}
+		for d := 0; d < 3; d++ {
+			cands := make([]*big.Int, 6)
+			for i := range cands {
+				cands[i] = randInt(rng, b.BitLen())
+			}
+			r.Do("common.GetRandomPositiveInt/scripted", true, "sample_positive", eInt(b), eInts(cands))
+			if b.Cmp(bi(1)) > 0 {
+				r.Do("common.GetRandomPositiveRelativelyPrimeInt/scripted", true, "sample_relprime", eInt(b), eInts(cands))
+			}
+			if b.Bit(0) == 1 && b.Cmp(bi(3)) >= 0 {
+				r.Do("common.GetRandomQuadraticNonResidue/scripted", true, "sample_qnr", eInt(b), eInts(cands))
+			}
 		}
 	}
 	// NTilde generation from small safe primes
